@@ -650,6 +650,12 @@ func (a *a23) indexSafe(f *ssa.Function, at ssa.Instruction, idx ssa.Value, cont
 	}
 	// explicit guard idx < len(cont)
 	cs := necessaryCmps(f, at)
+	// idx = x ± c under dominating constant bounds on x (`if m < 24 || m > 27 { panic }; T[m-24]`)
+	if n >= 0 {
+		if lo, hi, ok := boundsUnder(cs, idx, 0); ok && lo >= 0 && hi < n {
+			return true
+		}
+	}
 	lower := false
 	if l, _, ok := intervalOf(idx, 0); ok && l >= 0 {
 		lower = true
@@ -668,6 +674,91 @@ func (a *a23) indexSafe(f *ssa.Function, at ssa.Instruction, idx ssa.Value, cont
 		lower = true
 	}
 	return lower && upper
+}
+
+// boundsUnder: the interval of v given the comparisons cs that hold where v is used: the type's or
+// expression's own interval (intervalOf) narrowed by constant comparisons on v, and carried
+// through `x + c`, `x - c` and value-preserving conversions.
+func boundsUnder(cs []Cmp, v ssa.Value, depth int) (lo, hi int64, ok bool) {
+	if depth > 4 {
+		return 0, 0, false
+	}
+	lo, hi, ok = intervalOf(v, 0)
+	if !ok {
+		if l, h, okT := typeRange(v.Type()); okT {
+			lo, hi, ok = l, h, true
+		}
+	}
+	switch x := v.(type) {
+	case *ssa.Convert:
+		if l, h, ok2 := boundsUnder(cs, x.X, depth+1); ok2 {
+			if tl, th, okT := typeRange(x.Type()); okT && l >= tl && h <= th {
+				if !ok || l > lo {
+					lo = l
+				}
+				if !ok || h < hi {
+					hi = h
+				}
+				ok = true
+			}
+		}
+	case *ssa.BinOp:
+		if c, isC := constInt(x.Y); isC && (x.Op == token.ADD || x.Op == token.SUB) {
+			if l, h, ok2 := boundsUnder(cs, x.X, depth+1); ok2 {
+				if x.Op == token.SUB {
+					c = -c
+				}
+				l, h = l+c, h+c
+				// no wrap-around in the expression's own type
+				if tl, th, okT := typeRange(x.Type()); okT && l >= tl && h <= th {
+					if !ok || l > lo {
+						lo = l
+					}
+					if !ok || h < hi {
+						hi = h
+					}
+					ok = true
+				}
+			}
+		}
+	}
+	if !ok {
+		return 0, 0, false
+	}
+	for _, c := range cs {
+		x, y, op := c.X, c.Y, c.Op
+		if sameValue(y, v) {
+			x, y, op = y, x, swapOp(op)
+		}
+		if !sameValue(x, v) {
+			continue
+		}
+		n, isC := constInt(y)
+		if !isC {
+			continue
+		}
+		switch op {
+		case token.GEQ:
+			if n > lo {
+				lo = n
+			}
+		case token.GTR:
+			if n+1 > lo {
+				lo = n + 1
+			}
+		case token.LEQ:
+			if n < hi {
+				hi = n
+			}
+		case token.LSS:
+			if n-1 < hi {
+				hi = n - 1
+			}
+		case token.EQL:
+			lo, hi = n, n
+		}
+	}
+	return lo, hi, lo <= hi
 }
 
 // recursionConsumes: for every call edge f→g inside a strongly connected component of the
@@ -818,7 +909,70 @@ func isParamValue(v ssa.Value) bool {
 // lengthKnown: x has more than k elements because it is the result of a fixed-size read that
 // succeeded: readNBytes(src, n) with constant n > k, or Peek(n) with n > k under err == nil.
 func (a *a23) lengthKnown(f *ssa.Function, at ssa.Instruction, x ssa.Value, k int64) bool {
+	return a.lengthKnownD(f, at, x, k, 0)
+}
+
+func (a *a23) lengthKnownD(f *ssa.Function, at ssa.Instruction, x ssa.Value, k int64, depth int) bool {
 	switch c := x.(type) {
+	case *ssa.Slice:
+		// pb[lo:hi] with constant bounds of a value whose length is known to reach hi
+		lo := int64(0)
+		if c.Low != nil {
+			n, ok := constInt(c.Low)
+			if !ok || n < 0 {
+				return false
+			}
+			lo = n
+		}
+		if depth > 4 {
+			return false
+		}
+		if c.High != nil {
+			hi, ok := constInt(c.High)
+			if !ok || hi-lo <= k || hi < 1 {
+				return false
+			}
+			return a.lengthKnownD(f, at, c.X, hi-1, depth+1)
+		}
+		return a.lengthKnownD(f, at, c.X, k+lo, depth+1)
+	case *ssa.Parameter:
+		// a private helper (`bigEndianUint32(pb)`): every call site in the package hands it a
+		// value whose length is known there; the helper is never used as a value
+		if depth > 2 || f.Object() == nil || f.Object().Exported() || f.Signature.Recv() != nil {
+			return false
+		}
+		pi := -1
+		for i, q := range f.Params {
+			if q == c {
+				pi = i
+			}
+		}
+		if pi < 0 {
+			return false
+		}
+		sites, ok := 0, true
+		for _, g := range a.fns {
+			eachInstr(g, func(b *ssa.BasicBlock, i int, in ssa.Instruction) {
+				cc := callCommon(in)
+				for _, op := range in.Operands(nil) {
+					if op != nil && *op == ssa.Value(f) && (cc == nil || cc.Value != ssa.Value(f)) {
+						ok = false // the helper escapes as a value
+					}
+				}
+				if cc == nil || staticCallee(cc) != f {
+					return
+				}
+				if _, isCall := in.(*ssa.Call); !isCall || pi >= len(cc.Args) {
+					ok = false
+					return
+				}
+				sites++
+				if !a.lengthKnownD(g, in, cc.Args[pi], k, depth+1) {
+					ok = false
+				}
+			})
+		}
+		return ok && sites > 0
 	case *ssa.Call:
 		if sc := staticCallee(&c.Call); sc != nil && canonFn(sc) == "readNBytes" && len(c.Call.Args) == 2 {
 			return minConst(c.Call.Args[1], 0) > k
@@ -883,6 +1037,49 @@ func (ci *consumeInfo) consumingInstr(in ssa.Instruction) bool {
 	}
 	if sc := staticCallee(cc); sc != nil && ci.inPkg[sc] {
 		return ci.alwaysConsumes(sc)
+	}
+	// a callback parameter (`forEachItem(src, dst, n, func(i int) bool {…})`): consuming when the
+	// function handed in at every call site of the enclosing helper always consumes
+	if par, ok := cc.Value.(*ssa.Parameter); ok && !cc.IsInvoke() {
+		f := par.Parent()
+		pi := -1
+		for i, q := range f.Params {
+			if q == par {
+				pi = i
+			}
+		}
+		if pi < 0 || f.Object() == nil || f.Object().Exported() {
+			return false
+		}
+		sites, all := 0, true
+		for g := range ci.inPkg {
+			eachInstr(g, func(b *ssa.BasicBlock, i int, x ssa.Instruction) {
+				c2 := callCommon(x)
+				if c2 == nil {
+					return
+				}
+				for _, op := range x.Operands(nil) {
+					if op != nil && *op == ssa.Value(f) && c2.Value != ssa.Value(f) {
+						all = false // the helper escapes as a value
+					}
+				}
+				if staticCallee(c2) != f || pi >= len(c2.Args) {
+					return
+				}
+				sites++
+				var fn *ssa.Function
+				switch a := c2.Args[pi].(type) {
+				case *ssa.MakeClosure:
+					fn, _ = a.Fn.(*ssa.Function)
+				case *ssa.Function:
+					fn = a
+				}
+				if fn == nil || fn.Blocks == nil || !ci.alwaysConsumes(fn) {
+					all = false
+				}
+			})
+		}
+		return all && sites > 0
 	}
 	return false
 }
@@ -981,6 +1178,13 @@ func infeasibleMaskedSwitch(pa Path) bool {
 // input — the contents of a local bytes.Buffer filled exclusively by io.CopyN/io.Copy, or a fresh
 // slice handed to io.ReadFull — so its length never exceeds the number of bytes consumed.
 func returnsInputBytes(f *ssa.Function) bool {
+	return returnsInputBytesD(f, 0)
+}
+
+func returnsInputBytesD(f *ssa.Function, depth int) bool {
+	if depth > 3 {
+		return false
+	}
 	if f.Blocks == nil || f.Signature.Results().Len() != 1 || !isByteSlice(f.Signature.Results().At(0).Type()) {
 		return false
 	}
@@ -993,6 +1197,10 @@ func returnsInputBytes(f *ssa.Function) bool {
 		n++
 		switch x := ret.Results[0].(type) {
 		case *ssa.Call:
+			// a thin wrapper: returns what another such reader of the package returned
+			if sc := staticCallee(&x.Call); sc != nil && sc != f && sc.Pkg == f.Pkg && sc.Blocks != nil && returnsInputBytesD(sc, depth+1) {
+				return
+			}
 			if !isCallTo(&x.Call, "(*bytes.Buffer).Bytes") || len(x.Call.Args) != 1 {
 				ok = false
 				return
@@ -1154,7 +1362,7 @@ func ruleDecoderTermination(r *Run, p *Prog, a *a23) {
 			r.Ob("A23", FnName(f)+"/loop-consumes", p.Pos(firstPos([]*ssa.BasicBlock{h})), okc, true, tern(okc, "every iteration of this input-bounded loop consumes at least one input byte (or ends the decode with an error): it stops at end of input", "a loop whose trip count comes from the input can iterate without consuming input: a crafted count makes the decoder spin and produce output out of proportion to its input"))
 		}
 	}
-	if n < 2 {
-		r.Fail("A23", "loop-floor", "-", "fewer than two input-bounded loops found in the decoder (array2Json, map2Json expected)")
+	if n < 1 {
+		r.Fail("A23", "loop-floor", "-", "no input-bounded loop found in the decoder (the array and map decoders expected)")
 	}
 }
